@@ -7,11 +7,16 @@ in a routing map — carry pairwise different IDs), `C05_request_id_unique` (the
 with differs from that of every other such operation) and `C05_range` (every ID is within 1..N),
 for ANY interleaving of any number of handles' calls with the driver and the server.  Hypothesis
 `FreshRun2` (finding F13: needs a full wrap of the ID space while one call is stuck before the
-driver), discharged for all histories with at most N allocations (`C05_unique_nowrap`).
+driver), discharged for all histories with at most N allocations (`C05_unique_nowrap`) and, ACROSS any
+number of wraps, for all histories of any length in which no ID of a call on its way to the driver is
+released early (`C05_unique_across_wraps`, `C05_request_id_unique_across_wraps`,
+`C05_next_id_skips_outstanding`; decidable check `noEarlyRelease`, purely syntactic sufficient
+condition `calm` + driver alive).
 -/
 import Ldap3V.Lemmas.IdAlloc
 import Ldap3V.Lemmas.ConnUniq
 import Ldap3V.Lemmas.ConnWrap
+import Ldap3V.Lemmas.ConnCalm
 namespace Ldap3V
 
 /-- The allocator returns the FIRST free ID in the cyclic order last+1, …, N, 1, …, last; it is
@@ -174,6 +179,33 @@ theorem C05_next_id_skips_outstanding (N : Nat) (evs : List Ev) (hsafe : noEarly
   · exact hnotin (by rw [← e]; exact hu.mapIn.1 _ l)
   · exact hnotin (by rw [← e]; exact hu.mapIn.2 _ l)
 
+/-! ### a purely syntactic class of histories without early release
+
+`calm evs`: no event of the history is an `op_call` with a time-out (`enqueue _ (some _)`), an Abandon
+(`alloc (abandon _)`), a stream `next()` with a time-out (`recv _ (some _)`) or a `finish()` of a stream
+that is not Done (`finish _ true`) — so nothing is ever scrubbed — and the driver still runs at the end
+(it never restarts, so it ran all along).  Any interleaving, any number of allocations and wraps. -/
+
+open Conn in
+theorem C05_calm_no_early_release (N : Nat) (evs : List Ev) (hc : calm evs = true)
+    (hr : (run (init N) evs).drv = .running) : noEarlyRelease (init N) evs = true :=
+  noEarlyRelease_calm N evs hc hr
+
+open Conn in
+theorem C05_unique_across_wraps_calm (N : Nat) (evs : List Ev) (hc : calm evs = true)
+    (hr : (run (init N) evs).drv = .running) (i j : Nat) (oi oj : Op)
+    (hi : (run (init N) evs).ops[i]? = some oi) (hj : (run (init N) evs).ops[j]? = some oj)
+    (li : Live (run (init N) evs) i oi) (lj : Live (run (init N) evs) j oj) (hne : i ≠ j) : oi.id ≠ oj.id :=
+  C05_unique_across_wraps N evs (noEarlyRelease_calm N evs hc hr) i j oi oj hi hj li lj hne
+
+open Conn in
+theorem C05_request_id_unique_across_wraps_calm (N : Nat) (evs : List Ev) (hc : calm evs = true)
+    (hr : (run (init N) evs).drv = .running) (i : Nat) (rest : List Nat) (o : Op)
+    (hq : (run (init N) evs).opQ = i :: rest) (ho : (run (init N) evs).ops[i]? = some o) :
+    (∀ (j : Nat) (oj : Op), (run (init N) evs).ops[j]? = some oj → Live (run (init N) evs) j oj → j ≠ i → oj.id ≠ o.id) ∧
+    (∀ p ∈ (run (init N) evs).resultmap, p.1 ≠ o.id) ∧ (∀ p ∈ (run (init N) evs).searchmap, p.1 ≠ o.id) :=
+  C05_request_id_unique_across_wraps N evs (noEarlyRelease_calm N evs hc hr) i rest o hq ho
+
 /-! ### non-vacuity (tests) -/
 open Conn in
 /-- a reachable state with three outstanding operations (one registered, one queued, one between
@@ -257,6 +289,22 @@ example :
     nextId s.N s.last s.inUse = .ok 3 := by
   refine ⟨by decide, by decide, by decide, by decide, by decide, by decide, by decide, by decide, by decide,
     ⟨_, rfl, Or.inr (Or.inr (Or.inr ⟨0, by decide, by decide⟩))⟩, ⟨_, rfl, Or.inr (Or.inl (by decide))⟩, by decide⟩
+
+open Conn in
+/-- a calm history (hypotheses of the `_calm` theorems): 8 allocations over 3 IDs, three wraps, the
+search with ID 1 open throughout, one request queued at the end -/
+def calmWrapHistory : List Ev :=
+  [.alloc .search, .enqueue 0 none, .drvOp true, .poll 0] ++
+  roundTrip 1 2 ++ roundTrip 2 3 ++ roundTrip 3 2 ++ roundTrip 4 3 ++ roundTrip 5 2 ++ roundTrip 6 3 ++
+  [.alloc .single, .enqueue 7 none]
+
+set_option maxRecDepth 100000 in
+open Conn in
+example :
+    let s := run (init 3) calmWrapHistory
+    calm calmWrapHistory = true ∧ s.drv = .running ∧ 2 * 3 < allocCount calmWrapHistory ∧
+    s.ops.map (·.id) = [1, 2, 3, 2, 3, 2, 3, 2] ∧ s.searchmap = [(1, 0)] ∧ s.opQ = [7] := by
+  refine ⟨by decide, by decide, by decide, by decide, by decide, by decide⟩
 
 open Conn in
 /-- the F13 history is rejected by the check (at its `drvScrub`: the request is still queued) -/
